@@ -397,6 +397,16 @@ def f_alive_before_loop(ex, st, e):
     return _b(ex.loop_alive[-1][o.t])
 
 
+def f_oldf(ex, st, e):
+    """oldf(x, 'field'): the pre-state value of x.field, for an object x denoted in the CURRENT state"""
+    o = ex.as_ref(ex.ev1(e.args[0], st), st, e)
+    heap, env, epoch = ex.old_stack[-1]
+    s = State()
+    s.heap, s.epoch, s.pc, s.known = heap, epoch, st.pc, st.known
+    saved = ex.old_stack
+    return ex.read_field(s, o, e.args[1].value, e)
+
+
 def f_same(ex, st, e):
     heap, env, epoch = ex.old_stack[-1]
     s = State()
@@ -444,6 +454,6 @@ SPEC_FUNCS = {
     "is_false": _valpred(lambda v: v == Val.boolv(False)), "is_dec": _valpred(lambda v: z3.Or(Val.is_decv(v), Val.is_dpinf(v))),
     "is_fin": _valpred(smt.isfin), "is_time": _valpred(lambda v: z3.Or(Val.is_intv(v), Val.is_realv(v), Val.is_pinf(v), Val.is_decv(v), Val.is_dpinf(v))), "is_pinf": _valpred(lambda v: Val.is_pinf(v)),
     "is_ref": _valpred(lambda v: Val.is_ref(v)), "is_str": _valpred(lambda v: Val.is_strv(v)),
-    "cls_is": f_cls_is, "is_obj": f_is_obj, "is_list": f_is_list, "as_obj": f_as_obj, "as_list": f_as_list, "alive": f_alive, "was_alive": f_was_alive, "alive_before_loop": f_alive_before_loop, "same": f_same, "has": f_has,
+    "cls_is": f_cls_is, "is_obj": f_is_obj, "is_list": f_is_list, "as_obj": f_as_obj, "as_list": f_as_list, "alive": f_alive, "was_alive": f_was_alive, "oldf": f_oldf, "alive_before_loop": f_alive_before_loop, "same": f_same, "has": f_has,
     "owner": f_owner, "ref_eq": f_ref_eq, "real": f_realv,
 }
